@@ -854,6 +854,22 @@ func genCase(t *rapid.T) Case {
 				sm.Augments = append(sm.Augments, a)
 			}
 			x.idb = saved
+			if g.Chance(1, 3, "subchain") {
+				// a chain of groupings written in the submodule, each used below the top level of the one before (in
+				// either order of definition), the first one used by the module itself: what the module gets is the whole
+				// chain
+				str := &sg.TypeSpec{Name: "string"}
+				ga, g1, g2, ct := x.id("sca"), x.id("sc1"), x.id("sc2"), x.id("sct")
+				chain := []*sg.Grouping{
+					{Name: ga, Kids: []*sg.Node{{Kind: "container", Name: "scv", Kids: []*sg.Node{{Kind: "uses", Name: g1}}}}},
+					{Name: g1, Kids: []*sg.Node{{Kind: "container", Name: "scw", Kids: []*sg.Node{{Kind: "uses", Name: g2}, {Kind: "leaf", Name: "scy", Type: str}}}}},
+					{Name: g2, Kids: []*sg.Node{{Kind: "leaf", Name: "scz", Type: str}}}}
+				if g.Bool("subchainorder") {
+					chain[0], chain[2] = chain[2], chain[0]
+				}
+				sm.Groupings = append(sm.Groupings, chain...)
+				m.Nodes = append(m.Nodes, &sg.Node{Kind: "container", Name: ct, Kids: []*sg.Node{{Kind: "uses", Name: ga}}})
+			}
 			if len(sm.Groupings) > 0 || len(sm.Nodes) > 0 || len(sm.Augments) > 0 {
 				m.Includes = []string{sm.Name}
 				subs[m.Name] = sm
